@@ -243,8 +243,13 @@ def run_instance(grp, inst, tier):
         # model capacity, unmodelled externals, unwinding, pointer checks inside translated code ...
         safety = [q for q in other if not (q['desc'].startswith('MODEL:') or q['desc'].startswith('UNMODELLED') or 'unwinding assertion' in q['desc'] or 'recursion unwinding' in q['desc'])]
         res['other_failures'] = other[:20]
-        if safety and inst.get('safety_is_property'):
-            res.update(status='violation', failing=safety[:5], kind='safety'); return res
+        # cbmc assumes a check after it failed, so everything only reachable through it comes back UNKNOWN: a definite FAILURE is the counterexample to
+        # trace, UNKNOWN entries are never picked first, and UNKNOWN entries alone do not mask a definite property failure (the native replay arbitrates)
+        safety.sort(key=lambda q: q['result'] != 'FAILURE')
+        if safety and inst.get('safety_is_property') and (safety[0]['result'] == 'FAILURE' or not propfails):
+            res.update(status='violation', failing=(propfails + safety)[:8] if safety[0]['result'] != 'FAILURE' else (safety[:5] + propfails[:3]), kind='safety'); return res
+        if propfails and all(q['result'] == 'UNKNOWN' for q in other):
+            res.update(status='violation', failing=propfails[:8], kind='property'); return res
         res.update(status='inconclusive', why='non-property assertion failed: ' + '; '.join('%s (%s)' % (q['desc'], q['id']) for q in other[:6])); return res
     if propfails:
         res.update(status='violation', failing=propfails[:8], kind='property'); return res
